@@ -881,6 +881,8 @@ func (h *harness) post(n *NodeSpec, shared *flyt.SharedStore, p, e any, resultSt
 	simrt.EmitF(simrt.Event{Kind: "post_start", N: n.ID, S1: h.storeID(shared), S2: pd, S3: ed}, nil, func(ev *simrt.Event) {
 		if n.Kind == "func" && !hasPhase(n, 0) && !hasPhase(n, 1) {
 			st.begin() // a routing-only node: post is its only phase
+		} else if !st.open && n.configRun(h.runIdx).Retries <= 0 {
+			st.begin() // C19 only: a retry count <= 0 and no prep callback: no earlier phase opened the visit
 		}
 		st.open = false
 		v = st.cur
